@@ -8,6 +8,7 @@ def jobs(tier):
     from checks import c15
     front = [(c15.unit_hex, (list(range(i, min(i + 16, 256))),)) for i in range(0, 256, 16)] + [(c15.unit_swtpm, ())]
     front += [(c15.unit_wrapper, (w, k)) for w in ("hex", "swtpm") for k in ("opaque", "bytes", "bytearray", "list", "iterator")]
+    front += [(c15.unit_hex_bounded, (6 if tier == "thorough" else 5, p, 8)) for p in range(8)]  # bounded: every short hex text from four kinds of source
     from checks import c19
     front += [(c19.unit_small, ())]  # the file front-end (bytes_from_files): every byte of every file, in order, however the bytes are split over files
     return D.g_pump(m) + D.g_leaf(("strict",), deep=1) + D.g_arrays(("strict",)) + D.g_structs(("strict",)) + D.g_frames(("strict",)) + front
